@@ -1,0 +1,9 @@
+//go:build !verif
+
+// Package verifhook provides scheduling points for the verification harness. Without the `verif`
+// build tag Yield is an empty function that the compiler inlines away.
+package verifhook
+
+// Yield marks a point between two critical sections at which a controlled scheduler may switch to
+// another goroutine. It does nothing in regular builds.
+func Yield(point string) {}
